@@ -47,9 +47,10 @@ def run(ctx):
     nmax = ctx.scale(24, 120)
     classes = specs.ELEM + ["FusionART"]
     lines, expect = [], []
-    for i in range(N):
+    Nflag = ctx.scale(120, 2500)
+    for i in range(N + Nflag):
         r = gen.rng_for(ctx.seed, "C01", i)
-        cls = classes[i % len(classes)]
+        cls = classes[i % len(classes)] if i < N else "FusionART"
         d = r.randint(1, 4)
         n = r.randint(1, nmax)
         mode = MODES[(i // len(classes)) % 5]
@@ -66,6 +67,21 @@ def run(ctx):
             inv = [1 if specs.is_inverted(cls) else 0]
             rho = [spec["rho"]]
         vt = gen.veto_table(r, n, n + 1)
+        if cls == "FusionART" and len(chans) >= 2 and (i >= N or (i // len(classes)) % 2 == 0):
+            # a crisp "flag" channel with vigilance 0: match values are exactly 0 and still pass `0 >= 0`, so a
+            # veto has to track that channel's threshold up from 0 (only MT+ with epsilon > 0 then decides later
+            # candidates differently)
+            k0 = r.randrange(len(chans))
+            if chans[k0] == "FuzzyART":
+                spec["modules"][k0]["rho"] = 0.0
+                spec["modules"][k0]["alpha"] = max(spec["modules"][k0]["alpha"], 2.0 ** -10)
+                rho = [s_["rho"] for s_ in spec["modules"]]
+                a0 = sum(specs.width(c, dd) for c, dd in zip(chans[:k0], ds[:k0]))
+                raw = np.array([[float(r.randint(0, 1)) for _ in range(ds[k0])] for _ in range(n)])
+                X[:, a0:a0 + 2 * ds[k0]] = gen.cc(raw)
+                mode, eps, has_reset = "MT+", r.choice([0.125, 2.0 ** -10]), True
+                vt = [[r.random() < 0.5 for _ in range(n + 1)] for _ in range(n)]
+                cov.hit("fusion-flag-channel:rho=0")
         key = (cls, spec, X.tolist(), mode, eps, vt if has_reset else None)
         try:
             with quiet():
@@ -205,7 +221,11 @@ def run(ctx):
         else:
             cov.hit("resonance-deeper")
         if w != exp_w:
-            ctx.issue("diff", f"search:{cls}:winner", f"case {i} step {si}: impl label {st.ret} (ncat {st.ncat}), model {w}", rep)
+            # the model was run on the implementation's OWN activations, match values and reset answers of this
+            # step: C01 fixes the outcome as a function of those, so a different label is a violation at this step
+            ctx.issue("violation", f"{cls}:search-outcome-differs-from-rule",
+                      f"case {i} step {si}: the estimator returned label {st.ret} ({st.ncat} categories); the search rule applied "
+                      f"to the recorded activations, match values and reset answers gives {w} (mode {mode}, eps {eps})", rep)
             continue
         # visits: category sequence, thresholds in force, test results
         nch = len(visits[0]) - 3 if visits else 1
@@ -215,7 +235,9 @@ def run(ctx):
         mod_th = [v[1:1 + nch] for v in visits]
         imp_m = [mb for (_, mb, _) in st.Mseq]
         if mod_m != imp_m:
-            ctx.issue("diff", f"search:{cls}:match-seq", f"case {i} step {si}: impl match bits {imp_m}, model {mod_m}", rep)
+            ctx.issue("violation", f"{cls}:vigilance-test-differs-from-rule",
+                      f"case {i} step {si}: the estimator's vigilance tests along the search answered {imp_m}; the recorded match "
+                      f"values tested against the configured / tracked thresholds give {mod_m} (mode {mode}, eps {eps})", rep)
             continue
         if cls != "FusionART":
             imp_th = [[f2hex(rho_)] for (_, _, rho_) in st.Mseq]
